@@ -346,7 +346,7 @@ def ecdsa_recoverable_signature_parse_compact(compact_sig, recid, context=None):
     if len(compact_sig) != 64:
         raise ValueError("Signature should be 64 bytes long")
     # TODO: also check r value so recid > 2 makes sense
-    if recid < 0 or recid > 4:
+    if recid < 0 or recid > 3:
         raise ValueError("Failed parsing compact signature")
     return ecdsa_signature_parse_compact(compact_sig) + bytes([recid])
 
